@@ -651,3 +651,18 @@ pub fn crash_domain_discard(s: &Scan) -> Option<String> {
     }
     None
 }
+
+/// Two consecutive lists of any kinds in some scope (changing the type of one makes them the same
+/// kind, which iwe then writes as one list: KF-ADJACENT-LISTS by way of a conversion).
+pub fn has_adjacent_lists_any(blocks: &[CBlock]) -> bool {
+    for w in blocks.windows(2) {
+        if matches!((&w[0], &w[1]), (CBlock::List { .. }, CBlock::List { .. })) {
+            return true;
+        }
+    }
+    blocks.iter().any(|b| match b {
+        CBlock::Quote(inner) => has_adjacent_lists_any(inner),
+        CBlock::List { items, .. } => items.iter().any(|it| has_adjacent_lists_any(it)),
+        _ => false,
+    })
+}
